@@ -434,7 +434,14 @@ def present(a, noise, rng, rotate=True):
         d = rng.normal(size=(len(b), 3))
         d /= np.linalg.norm(d, axis=1)[:, None]
         b.positions += d * noise * rng.random((len(b), 1))
-    perm = rng.permutation(len(b))
+    # atom ordering: mostly shuffled, sometimes as built or reversed
+    r = rng.random()
+    if r < 0.15:
+        perm = np.arange(len(b))
+    elif r < 0.25:
+        perm = np.arange(len(b))[::-1]
+    else:
+        perm = rng.permutation(len(b))
     b = b[perm]
     if rotate:
         b.rotate(float(rng.uniform(0, 360)), rng.normal(size=3), rotate_cell=True)
@@ -577,7 +584,14 @@ def present_stack(st, top, noise, rng):
         pc = precond(b, margin=0.15 - 2 * noise)
         if pc:
             return None
-    perm = rng.permutation(len(b))
+    # atom ordering: as built (slab A then slab B, layer by layer), reversed, or shuffled
+    r = rng.random()
+    if r < 0.25:
+        perm = np.arange(len(b))
+    elif r < 0.4:
+        perm = np.arange(len(b))[::-1]
+    else:
+        perm = rng.permutation(len(b))
     b = b[perm]
     inv = {int(p): i for i, p in enumerate(perm)}
     SA = sorted(inv[int(i)] for i in np.where(~top)[0])
